@@ -590,6 +590,7 @@ let run ~seed ~tier oc =
   let r = mk_rng seed in
   gen_slice oc r tier;
   gen_observe oc r tier;
+  emit oc (Ob [ "stream", JS "observe-go"; "f", JS "observe-go"; "nt", JB true ]);
   gen_reverse oc r tier;
   gen_sort oc r tier;
   gen_join_split oc r tier;
